@@ -320,8 +320,14 @@ def check_c03(tier):
                             "documentSymbol does not list exactly the fixtures the document declares (each once, at its def line)")
         shutil.rmtree(sbase, ignore_errors=True)
     V.sample({"function": cases[0][1]["fn"], "expect": cases[0][1]["expect"], "text": texts[0]})
+    # B2 over the repository's own test-suite (hook: src/fixtures/verif_trace.rs): every text any of the 710 tests hands to the
+    # analyzer is projected by CPython under the documented rules and the recorded index slice must be SuiteTrace.tla's
+    n_suite = 0
+    if not os.environ.get("VERIF_REPLAY"):
+        import suitetrace
+        n_suite = suitetrace.validate(V, "cpython")
     cov = {"states": sum(m["distinct"] for m in metas), "transitions": sum(m["transitions"] for m in metas),
-           "traces_validated_against_impl": len(results), "corpus_files": len(corpus), "exhaustive": True,
+           "traces_validated_against_impl": len(results) + n_suite, "corpus_files": len(corpus), "exhaustive": True,
            "tlc": [{"cfg": m["cfg"], "wall_s": m["wall_s"]} for m in metas]}
     return V.finish(
         coverage_extra=cov,
